@@ -1,8 +1,9 @@
 (* C10 - definitions used to state "block operators act as the block matrices of their blocks":
    nested containers of blocks and the tree maps of blocks.py written directly on them,
    flattened values, row-major dense matrices with hstack / vstack / block_diag, "f acts as the
-   matrix M", the columns obtained from basis vectors, inner products, and the inverse() of a
-   block-diagonal operator that recurses into block-diagonal blocks.  Definitions only. *)
+   matrix M", the columns obtained from basis vectors, inner products, the inverse() of a
+   block-diagonal operator that recurses into block-diagonal blocks, and sequences of .T / .I
+   (`steps`: op.T.I, op.I.T, op.I.I ...).  Definitions only. *)
 From Coq Require Import List Bool Arith ZArith NArith QArith Qcanon String Lia.
 From Furax Require Import Base.Pytree Model.Op Model.Algebra Model.Denote Model.Exec.
 Import ListNotations.
